@@ -11,7 +11,9 @@ import random as pyrandom
 import common
 
 POOL = ["Alice", "Bob", "Charlie", "David", "Eve", "Faythe", "Grace", "Heidi", "Ivan", "Judy", "Mallory", "Niaj", "Olivia", "Peggy",
-        "Rupert", "Sybil", "Trent", "Uma", "Victor", "Walter", "n0", "n1", "n_2", "x"]
+        "Rupert", "Sybil", "Trent", "Uma", "Victor", "Walter", "n0", "n1", "n_2", "x",
+        # names that contain other names (numbered nodes from 10 up, nicknames): name comparison must be equality, never containment
+        "Alice2", "Bobby", "n10", "n11", "n", "node1", "node10", "A", "Al", "xx", "1", "10", "Eve2", "Ivanka"]
 
 
 # ---- the property, directly --------------------------------------------------------------------------------------
